@@ -337,27 +337,6 @@ theorem v1ClipBox_safe (t : Colr) (gid : Nat) :
 
 /-! ## COLR v0 closures -/
 
-theorem v0LayerLoop_length (t : Colr) (pick : Layer → Nat) (s e : Nat) (acc : List Nat) :
-    (v0LayerLoop t pick s e acc).length ≤ acc.length + (e - s) := by
-  have key : ∀ (f : List Nat → Nat → List Nat) (hf : ∀ acc i, (f acc i).length ≤ acc.length + 1)
-      (l : List Nat) (acc : List Nat), (l.foldl f acc).length ≤ acc.length + l.length := by
-    intro f hf l
-    induction l with
-    | nil => intro acc; simp
-    | cons x xs ih =>
-      intro acc
-      simp only [List.foldl_cons, List.length_cons]
-      have h1 := ih (f acc x)
-      have h2 := hf acc x
-      omega
-  unfold v0LayerLoop
-  simp only []
-  refine Nat.le_trans (key _ ?_ _ _) (by simp)
-  intro acc i
-  split
-  · simp
-  · omega
-
 /-- one member of the glyph set: no panic, at most `0xFFFF` trips of the layer loop -/
 theorem v0ClosureStep_total (t : Colr) (recs : List BaseGlyph) (pick : Layer → Nat)
     (h16 : ∀ r ∈ recs, r.first < 65536 ∧ r.num < 65536) (acc : List Nat) (gid : Nat) :
@@ -417,25 +396,6 @@ theorem v0Closure_total (t : Colr) (hb : Bytes t.d) (glyphs : List Nat) :
 
 /-! ## COLR v1 closure -/
 
-theorem core_clipClosure (c : Ctx) (s e : Nat) (b : Option (Option Nat)) :
-    core (clipClosure c s e b) = core c := by
-  unfold clipClosure
-  cases b with
-  | none => rfl
-  | some b =>
-    simp only []
-    split
-    · cases b with
-      | none => rfl
-      | some base => exact core_addVars c base 4
-    · rfl
-
-theorem core_v1Clips (cl : List (Nat × Nat × Option (Option Nat))) : ∀ c : Ctx, core (v1Clips c cl) = core c := by
-  unfold v1Clips
-  induction cl with
-  | nil => intro c; rfl
-  | cons r rs ih => intro c; simp only [List.foldl_cons]; rw [ih, core_clipClosure]
-
 /-- **the COLR v1 closure terminates within a bound linear in the number of paints, on every paint graph
 — cyclic, shared, arbitrarily deep**: the model's fuel (65 for the 64 nesting levels) is never
 exhausted, no `u8` / index panic occurs (`nesting_level_left` returns to 64; the `&records[ix]` of
@@ -489,26 +449,6 @@ example :
     c.calls = 2 ∧ c.visited = [10] ∧ c.glyphs = [7] := by decide +kernel
 
 /-! ### the graph of table bytes -/
-
-theorem nodeAt_some_lt (d : List Nat) (p : Nat) (h : (nodeAt d p).isSome = true) : p < d.length := by
-  unfold nodeAt at h
-  split at h
-  · simp at h
-  · rename_i fmt hf
-    unfold paintRead at hf
-    split at hf
-    · cases hf
-    · rename_i f hr
-      unfold readAt checkedAdd at hr
-      split at hr
-      · cases hr
-      · rename_i e he
-        split at he
-        · injection he with he
-          split at hr
-          · omega
-          · cases hr
-        · cases he
 
 /-- **every paint the closure dispatches is a node of the graph**: a child / layer / base-glyph paint
 that resolves (`resolvePaint … = ok`) has a node at its position — the `none` arm of the model's
@@ -724,6 +664,10 @@ theorem hdmxRecordForSize_total (a : HdmxArr) (size : Nat) (hlen : a.area.length
 /-- a hit after two trips in a table of three 4-byte records (`num_glyphs = 2`) -/
 example : hdmxRecordForSize ⟨[10, 9, 1, 2, 12, 9, 1, 2, 20, 9, 1, 2], 4, 2⟩ 20 = some (.ok (some 8), 2) := by decide +kernel
 
+/-- the size hypothesis holds for every slice (`≤ isize::MAX` bytes) -/
+example : ([10, 9, 1, 2] : List Nat).length ≤ MAXU / 2 := by decide
+
+/-- at most 16 trips for the `u16` record count of an hdmx table -/
 example : bitLen 65535 ≤ 16 := bitLen_le_of_lt_pow 16 65535 (by decide)
 
 /-! ## `Vorg::vertical_origin_y` -/
@@ -767,27 +711,6 @@ theorem metaData_in_bounds (dataLen off len a b : Nat) (lang l : Bool)
       · cases h
 
 /-! ## `compute_checksum` -/
-
-theorem checksumLoop_spec : ∀ (d : List Nat) (sum trips : Nat),
-    (checksumLoop d sum trips).2.2 = trips + d.length / 4 ∧
-    (checksumLoop d sum trips).2.1.length = d.length % 4 ∧
-    (sum < 4294967296 → (checksumLoop d sum trips).1 < 4294967296) := by
-  intro d sum trips
-  fun_induction checksumLoop d sum trips with
-  | case1 a b c e rest sum trips ih =>
-    obtain ⟨h1, h2, h3⟩ := ih
-    refine ⟨by simp only [List.length_cons]; omega, by simp only [List.length_cons]; omega, ?_⟩
-    intro _
-    exact h3 (Nat.mod_lt _ (by decide))
-  | case2 rem sum trips hne =>
-    have hl : rem.length < 4 := by
-      match rem, hne with
-      | [], _ => simp
-      | [_], _ => simp
-      | [_, _], _ => simp
-      | [_, _, _], _ => simp
-      | a :: b :: c :: e :: rest, hne => exact absurd rfl (hne a b c e rest)
-    refine ⟨by simp only []; omega, by simp only []; omega, fun h => h⟩
 
 /-- **`compute_checksum` makes exactly ⌊len / 4⌋ trips of the quad loop, handles the 0–3 remaining
 bytes without indexing, and every `u32` addition wraps** (`wrapping_add`): the result is a `u32`. -/
